@@ -110,6 +110,7 @@ func tTag(c context, s []byte) (context, int) {
 			scriptType: c.scriptType,
 			linkRel:    c.linkRel,
 		}
+		ret.element.attrSplit = false
 		if specialElements[c.element.name] {
 			ret.state = stateSpecialElementBody
 		}
